@@ -42,6 +42,6 @@ def run(ctx, rep):
     rep.run(RI.rule_entry_describes_its_own_overload, ctx, rep, "I8")
     rep.run(RI.rule_pointer_constructor_by_evaluation, ctx, rep, "I9")
     rep.run(RI.rule_call_sites_by_evaluation, ctx, rep, "I10")
-    rep.run(RI.rule_routines_by_evaluation, ctx, rep, "I11")
+    rep.run(RI.rule_routines_by_evaluation, ctx, rep, "I11", conversions=False)
     rep.run(RI.rule_property_accessors_by_evaluation, ctx, rep, "I12", parts=("sites",))
     rep.run(RF.rule_locals_defined, ctx, rep, "U1", packages=("gtwrap/matlab_wrapper",), min_functions=3)
